@@ -83,6 +83,14 @@ def _n_sub(l64, r64):
 
 
 def _n_mul(l64, r64):
+    for c, x in ((l64, r64), (r64, l64)):
+        if z3.is_bv_value(c) and not z3.is_bv_value(x):
+            # constant factor: c * x fits  <=>  x lies between the two quotients (plain comparisons)
+            c = c.as_signed_long()
+            if c == 0:
+                return l64 * r64, z3.BoolVal(True)
+            lo, hi = (-(MIN64 // -c), MAX64 // c) if c > 0 else (-(MAX64 // -c), MIN64 // c)
+            return l64 * r64, z3.And(x >= z3.BitVecVal(max(lo, MIN64), 64), x <= z3.BitVecVal(min(hi, MAX64), 64))
     return l64 * r64, z3.And(z3.BVMulNoOverflow(l64, r64, True), z3.BVMulNoUnderflow(l64, r64))
 
 
